@@ -12,6 +12,7 @@ import (
 	vs "github.com/c2FmZQ/ech/vsched"
 
 	"verif/internal/ev"
+	"verif/internal/racepass"
 	"verif/internal/workers"
 )
 
@@ -100,6 +101,10 @@ func Run(r *ev.Run, replay string) {
 	}
 	r.MirrorCounters("choice_points", "states", "transitions")
 	r.MirrorCounters("executions", "traces_validated_against_impl")
+	// supplementary, over real loopback sockets; reported separately, never counted as exploration: the DialFunc that NewDialer
+	// installs (replaced by a scripted fake in every scenario above) closes the connection of an attempt that fails by itself,
+	// and the per-attempt deadline does not outlive the attempt on the connection it returns
+	racepass.Run(r, "./checks/c18/realsock/", "the DialFunc that NewDialer installs", "3 failing attempts against a peer that is no TLS server, 1 successful attempt used 900 ms after its 300 ms deadline")
 }
 
 func runTraced(sc scenario, vec []int) (*trace, *vs.Sched) {
